@@ -424,3 +424,105 @@ pub fn variant(rng: &mut Rng, g: &Geometry<f64>) -> Geometry<f64> {
         }
     }
 }
+
+
+/// Hand-built shapes with configurations that random polyominoes practically never produce: a hole
+/// whose extreme vertex touches the tip of a shell notch (interior above and below the touch point)
+/// with collinear vertices on the edges and further holes beyond; a comb; a spiral; a member of a
+/// multipolygon whose vertex lies in the *interior* of another member's edge.
+pub fn tricky_bases() -> Vec<Vec<Vec<Vec<(i64, i64)>>>> {
+    // multipolygon = list of polygons; polygon = list of rings (first = exterior); rings are closed
+    vec![
+        vec![vec![
+            vec![(0, 0), (2, 0), (30, 0), (22, 25), (10, 1), (12, 25), (12, 30), (0, 30), (0, 0)],
+            vec![(1, 2), (10, 1), (5, 8), (1, 2)],
+            vec![(20, 15), (22, 14), (22, 15), (20, 15)],
+        ]],
+        vec![vec![
+            // comb: teeth pointing up, collinear vertices along the base
+            vec![(0, 0), (4, 0), (8, 0), (12, 0), (12, 10), (10, 10), (10, 3), (8, 3), (8, 10), (6, 10), (6, 3), (4, 3), (4, 10), (2, 10), (2, 3), (0, 3), (0, 0)],
+        ]],
+        vec![vec![
+            // frame with two holes touching each other and the shell at vertices
+            vec![(0, 0), (12, 0), (12, 12), (0, 12), (0, 0)],
+            vec![(0, 6), (4, 3), (6, 6), (4, 9), (0, 6)],
+            vec![(6, 6), (9, 2), (12, 6), (9, 10), (6, 6)],
+        ]],
+        vec![
+            // a vertex of the second member lies in the interior of an edge of the first
+            vec![vec![(0, 3), (1, 2), (1, 1), (3, 1), (3, 2), (2, 2), (2, 3), (0, 3)]],
+            vec![vec![(2, 0), (3, 0), (2, 1), (2, 0)]],
+        ],
+        vec![
+            vec![vec![(0, 0), (8, 0), (8, 4), (0, 4), (0, 0)]],
+            vec![vec![(3, 4), (5, 8), (1, 8), (3, 4)]],
+            vec![vec![(8, 2), (12, 0), (12, 4), (8, 2)]],
+        ],
+        vec![vec![
+            // spiral
+            vec![(0, 0), (10, 0), (10, 10), (2, 10), (2, 4), (6, 4), (6, 6), (4, 6), (4, 8), (8, 8), (8, 2), (0, 2), (0, 0)],
+        ]],
+    ]
+}
+
+/// A variant of one of the tricky bases: small integer jitter of some vertices, an optional
+/// symmetry (reflection / transposition), optional extra collinear vertices on edges. Validity is
+/// decided on the Lean side; invalid variants are skipped there.
+pub fn tricky_variant(rng: &mut Rng) -> MultiPolygon<f64> {
+    let bases = tricky_bases();
+    let base = rng.pick(&bases).clone();
+    let jitter = rng.chance(1, 2);
+    let sym = rng.below(8);
+    let tf = |(x, y): (i64, i64)| -> (i64, i64) {
+        let (x, y) = if sym & 1 != 0 { (-x, y) } else { (x, y) };
+        let (x, y) = if sym & 2 != 0 { (x, -y) } else { (x, y) };
+        if sym & 4 != 0 { (y, x) } else { (x, y) }
+    };
+    let mut polys = vec![];
+    for poly in base {
+        let mut rings = vec![];
+        for ring in poly {
+            let n = ring.len() - 1;
+            let mut r: Vec<(i64, i64)> = ring[..n].to_vec();
+            if jitter {
+                for v in r.iter_mut() {
+                    if rng.chance(1, 6) {
+                        v.0 += rng.range(-1, 1);
+                        v.1 += rng.range(-1, 1);
+                    }
+                }
+            }
+            // extra collinear vertices: split an edge at an interior lattice point when there is one
+            let mut out = vec![];
+            for i in 0..n {
+                let (a, b) = (r[i], r[(i + 1) % n]);
+                out.push(a);
+                if rng.chance(1, 5) {
+                    let (dx, dy) = (b.0 - a.0, b.1 - a.1);
+                    let g = gcd(dx.abs(), dy.abs());
+                    if g > 1 {
+                        let k = rng.range(1, g - 1);
+                        out.push((a.0 + dx / g * k, a.1 + dy / g * k));
+                    }
+                }
+            }
+            let mut cs: Vec<Coord<f64>> = out.into_iter().map(tf).map(|(x, y)| c(x, y)).collect();
+            // random start vertex / direction
+            let m = cs.len();
+            cs.rotate_left(rng.below(m as u64) as usize);
+            if rng.chance(1, 2) {
+                cs.reverse();
+            }
+            let f = cs[0];
+            cs.push(f);
+            rings.push(LineString(cs));
+        }
+        let ext = rings.remove(0);
+        polys.push(Polygon::new(ext, rings));
+    }
+    MultiPolygon(polys)
+}
+
+fn gcd(a: i64, b: i64) -> i64 {
+    if b == 0 { a } else { gcd(b, a % b) }
+}
